@@ -123,11 +123,8 @@ def run_shard(spec, res):
         if dl.over():
             break
         res.evaluations += 1
-        from kverif.kharness import NonFiniteData
-        try:
-            run_case(case_rng(spec['seed'], ID, i), res, i)
-        except NonFiniteData:
-            res.skip('torch produced non-finite data for finite inputs')
+        from kverif.kharness import call_case
+        call_case(res, run_case, case_rng(spec['seed'], ID, i), res, i, case=dict(idx=i))
 
 
 def replay(case, res):
